@@ -8,7 +8,7 @@ out=seeded/CONFIRM.txt
 for d in seeded/C*/; do
   k=$(basename $d)
   checks=$(/venv/bin/python -c "import json;m=json.load(open('$d/meta.json'));print((m['caught_by'] or [m['property']])[0])")
-  p=$d/patch.diff; [ -f $d/patch_ported.diff ] && p=$d/patch_ported.diff; git -C /repo apply $p || { echo "$k patch does not apply" | tee -a $out; continue; }
+  p=$PWD/$d/patch.diff; [ -f $d/patch_ported.diff ] && p=$PWD/$d/patch_ported.diff; git -C /repo apply $p || { echo "$k patch does not apply" | tee -a $out; continue; }
   for c in $checks; do
     ./check $c --tier quick > /tmp/confirm.$$ 2>&1; rc=$?
     echo "$k $c exit=$rc $(grep -c '^VIOLATION' /tmp/confirm.$$) violation lines" | tee -a $out
